@@ -17,7 +17,7 @@ GNext ==
        \/ \E br \in {"send", "ctx", "closed"} : SSlow(p, br) /\ H("SSlow", <<p, br>>)
   \/ \E br \in {"in", "done"} : WSelect(br) /\ H("WSelect", <<br>>)
   \/ \E br \in {"recv", "empty"} : WDrain(br) /\ H("WDrain", <<br>>)
-  \/ \E ok \in BOOLEAN : WFlush(ok) /\ H("WFlush", <<IF ok THEN "TRUE" ELSE "FALSE">>)
+  \/ \E o \in {"ok", "fail", "lost"} : WFlush(o) /\ H("WFlush", <<o>>)
   \/ XClose /\ H("XClose", <<>>)
   \/ XStop /\ H("XStop", <<>>)
   \/ XWait /\ H("XWait", <<>>)
